@@ -174,6 +174,14 @@ class FakeServer:
                 from engine.symx import sym_int
                 exat = sym_int(ts) if not isinstance(ts, float) else int(ts)
             self.expiry[k] = exat
+        elif ex is not None:
+            # relative expiry: whole seconds from the server's clock at the moment of the SET
+            if hasattr(ex, "total_seconds"):
+                from engine.symx import sym_int
+                secs = ex.total_seconds()
+                ex = sym_int(secs) if not isinstance(secs, float) else int(secs)
+            if self.clock is not None:
+                self.expiry[k] = self.clock() + ex
         return True
 
     def delete(self, *ks):
